@@ -2053,14 +2053,7 @@ func (ex *explorer) canInlineAt(st *State, fn *ssa.Function, site string) bool {
 		if owner, ok := ex.an.loopOwner[fn]; ok && owner != key {
 			return false
 		}
-		// nested defers inside such a callee are not supported
-		for _, b := range fn.Blocks {
-			for _, in := range b.Instrs {
-				if _, isDefer := in.(*ssa.Defer); isDefer {
-					return false
-				}
-			}
-		}
+		// (defers inside such a callee stay on its frame, which the states at its loop heads keep)
 		ex.an.loopOwner[fn] = key
 		for _, h := range LoopHeaders(fn) {
 			if !ex.isHdr[h] {
